@@ -39,6 +39,7 @@ var (
 // 预编译正则表达式用于页眉页脚变量替换
 var headerFooterVarPattern = regexp.MustCompile(`\{\{(\w+)\}\}`)
 
+
 // TemplateEngine 模板引擎
 type TemplateEngine struct {
 	cache    map[string]*Template // 模板缓存
@@ -2075,7 +2076,57 @@ func (te *TemplateEngine) processDocumentLevelLoops(doc *Document, data *Templat
 }
 
 // replaceVariablesInParagraph 在段落中替换变量（改进版本，更好地保持样式）
+//
+// 段落里不带文本的Run（分页符/换行符、图片、域字符）不参与变量替换，必须原样保留：
+// 这里把段落按这些Run切成若干段连续的文本Run，逐段替换，再按原来的顺序拼回去。
 func (te *TemplateEngine) replaceVariablesInParagraph(para *Paragraph, data *TemplateData) error {
+	isNonTextRun := func(run *Run) bool {
+		return run.Text.Content == "" && (run.Break != nil || run.Drawing != nil || run.FieldChar != nil || run.InstrText != nil)
+	}
+	hasNonTextRun := false
+	for i := range para.Runs {
+		if isNonTextRun(&para.Runs[i]) {
+			hasNonTextRun = true
+			break
+		}
+	}
+	if !hasNonTextRun {
+		return te.replaceVariablesInTextRuns(para, data)
+	}
+
+	result := make([]Run, 0, len(para.Runs))
+	stretch := make([]Run, 0, len(para.Runs))
+	flush := func() error {
+		if len(stretch) == 0 {
+			return nil
+		}
+		segment := &Paragraph{Properties: para.Properties, Runs: stretch}
+		if err := te.replaceVariablesInTextRuns(segment, data); err != nil {
+			return err
+		}
+		result = append(result, segment.Runs...)
+		stretch = make([]Run, 0, len(para.Runs))
+		return nil
+	}
+	for i := range para.Runs {
+		if isNonTextRun(&para.Runs[i]) {
+			if err := flush(); err != nil {
+				return err
+			}
+			result = append(result, para.Runs[i])
+			continue
+		}
+		stretch = append(stretch, para.Runs[i])
+	}
+	if err := flush(); err != nil {
+		return err
+	}
+	para.Runs = result
+	return nil
+}
+
+// replaceVariablesInTextRuns 在一段连续的文本Run中替换变量
+func (te *TemplateEngine) replaceVariablesInTextRuns(para *Paragraph, data *TemplateData) error {
 	// 首先识别所有变量占位符的位置
 	fullText := ""
 	runInfos := make([]struct {
